@@ -134,7 +134,8 @@ def r3(ctx):
     rule = "C12.R3"
     ctx.rule(rule, "T7 normalisation twin: every literal value the token-level parser of INTEGER ranges / SIZE constraints branches on "
                    "(LitOrRef::Lit(c)) is also tested by the type's try_resolve (or the normaliser it calls), so a referenced bound ends in "
-                   "the same model as the literal")
+                   "the same model as the literal - and, the other way round, try_resolve singles out no extreme value (|c| > 2^31) that the "
+                   "parser of the literal form does not")
     P = ctx.program()
     pairs = [("Integer", "asn::integer::Integer<", "integer.rs"), ("Size", "asn::size::Size<", "size.rs")]
     for name, ty, f in pairs:
@@ -152,6 +153,13 @@ def r3(ctx):
             ctx.ok(rule, name, dict(detail, note="the parser does not branch on literal bounds"), nontrivial=False)
             continue
         missing = sorted(cp - cr)
+        extra = sorted(c for c in (cr - cp) if abs(c) > 2 ** 31)
+        if extra and not missing:
+            ctx.fail(rule, name + "#resolver-only", "try_resolve of %s treats the bound(s) %s specially, but the parser of the literal form does "
+                                                    "not: a range written with these values (or with references to them) is normalised to "
+                                                    "something the literal spelling is not" % (name, extra),
+                     "%s:%d" % (resolver[0].file, resolver[0].line), detail)
+            continue
         if missing:
             ctx.fail(rule, name, "the parser of %s treats the literal bound(s) %s specially, but try_resolve never tests them: `%s (ref..)` with "
                                  "ref = %s resolves to a different model than the literal" % (name, missing, name.upper(), missing[0]),
@@ -308,6 +316,72 @@ def r7(ctx):
     ctx.floor(rule, n, "C12.R7.rebuilds")
 
 
+def r8(ctx):
+    rule = "C12.R8"
+    ctx.rule(rule, "no state leaks between FROM clauses: read_imports collects the symbols of one clause in an accumulator and, "
+                   "after pushing it, replaces the whole accumulator by a fresh Import (or pushes a freshly built one) - a field "
+                   "that is only conditionally overwritten (`from_oid` when the clause has an OID) otherwise carries the previous "
+                   "clause's module identifier into the next import, and the reference resolves in the wrong module")
+    P = ctx.program()
+    bs = [b for b in P.find("asn1rs_model", "::read_imports") if b.def_kind == "AssocFn"]
+    if len(bs) != 1:
+        ctx.fail(rule, "anchor-lost:read_imports", "matched %d bodies" % len(bs))
+        return
+    b = bs[0]
+    O = X.Origins(b, P)
+    pushes = [cs for cs in b.calls() if cs.name == "push" and any("model::Import" in t for t in cs.term.get("argtys", []))]
+    if not pushes:
+        ctx.fail(rule, "read_imports#anchor-lost:push", "no push of an Import", "%s:%d" % (b.file, b.line))
+        return
+    for i, cs in enumerate(pushes):
+        arg = cs.args[1]
+        acc = None
+        if arg.get("k") in ("copy", "move") and not arg["pl"]["p"]:
+            acc = arg["pl"]["l"]
+            # pushed through a clone: the accumulator is what was cloned
+            for d in b.defs.get(acc, ()):
+                if d[2] == "call" and d[3].name == "clone":
+                    a0 = d[3].args[0]
+                    src = O.operand(a0, d[3].bb, len(b.blocks[d[3].bb]["stmts"]))
+                    for e in X.walk(src):
+                        if e[0] == "local":
+                            acc = e[1]
+        # the pushed operand is usually a temporary `_t = move import`: follow plain moves back to the named local
+        for _ in range(4):
+            ds = b.defs.get(acc, ()) if acc is not None else ()
+            if len(ds) == 1 and ds[0][2] == "assign" and ds[0][3]["k"] == "use" and ds[0][3]["op"].get("k") in ("copy", "move") \
+                    and not ds[0][3]["op"]["pl"]["p"]:
+                acc = ds[0][3]["op"]["pl"]["l"]
+            else:
+                break
+        fresh_before = False
+        reset_after = []
+        if acc is not None:
+            for d in b.defs.get(acc, ()):
+                whole = True
+                if d[2] == "assign":
+                    pass
+                blk = d[0]
+                if cs.target is not None and (blk == cs.target or b.dominates(cs.target, blk)) and d[2] in ("call", "assign"):
+                    if d[2] == "call":
+                        what = d[3].name
+                    else:
+                        e = O.rvalue(d[3], d[0], d[1], 0)
+                        while e[0] in ("ref", "deref", "mut"):
+                            e = e[1]
+                        what = X.last_seg(e[1]) if e[0] == "call" else e[0]
+                    reset_after.append((what, blk))
+        name = (b.names or {}).get(acc, "_%s" % acc)
+        detail = {"pushed": name, "whole_reassignments_after_push": reset_after}
+        ok = any(w in ("default", "new", "agg") for w, _ in reset_after)
+        if not ok:
+            ctx.fail(rule, "read_imports#accumulator-reset", "after an Import is pushed the accumulator `%s` is not replaced by a fresh value: "
+                                                             "fields that the next clause does not set keep the previous clause's content"
+                     % name, cs.loc(), detail)
+        else:
+            ctx.ok(rule, "read_imports#accumulator-reset", detail)
+
+
 def run(ctx):
     r1_r2(ctx)
     r3(ctx)
@@ -315,3 +389,4 @@ def run(ctx):
     r5(ctx)
     r6(ctx)
     r7(ctx)
+    r8(ctx)
